@@ -372,7 +372,20 @@ def run_history(desc):
             else:
                 must_raise = True
                 how = s["how"] % 6
-                if how == 4 and s["k"] % 2 and len(tl) >= 2:
+                wl = None
+                if s["i"] % 3 == 2 and len(tl) >= 2:
+                    # ALL THREE arrays are given, over the same dimensions among themselves - but not the stock's
+                    # (transposed so that time is not first / one dimension missing / non-time dimensions permuted)
+                    wl = [tl[::-1], tl[:-1], tl[:1] + tl[1:][::-1], tl + [l_ for l_ in allL if l_ not in tl][:1]][s["k"] % 4]
+                if wl is not None and wl != tl:
+                    mkw = lambda tag: build.array(U, {"letters": wl, "mode": "coded", "tag": tag}, cls=fd.StockArray)
+                    st_cls = [
+                        lambda: fd.SimpleFlowDrivenStock(dims=tds, stock=mkw("x"), inflow=mkw("y"), outflow=mkw("z")),
+                        lambda: fd.InflowDrivenDSM(dims=tds, stock=mkw("x"), inflow=mkw("y"), outflow=mkw("z"), lifetime_model=fd.NormalLifetime(dims=tds, mean=2.0, std=1.0)),
+                        lambda: fd.StockDrivenDSM(dims=tds, stock=mkw("x"), inflow=mkw("y"), outflow=mkw("z"), lifetime_model=fd.FixedLifetime(dims=tds, mean=2.0)),
+                    ][s["j"] % 3]
+                    call = st_cls
+                elif how == 4 and s["k"] % 2 and len(tl) >= 2:
                     # a lifetime parameter over a dimension that shares a letter with a model dimension but is ANOTHER
                     # dimension (one item, or one item more): not a dimension of the model, must be refused
                     l = tl[1 + s["j"] % (len(tl) - 1)]
